@@ -42,8 +42,9 @@ EXISTING = {
 
 
 def _repo_modules(repo):
-    if repo not in sys.path:
-        sys.path.insert(0, repo)
+    if repo in sys.path:
+        sys.path.remove(repo)
+    sys.path.insert(0, repo)
     for name in [n for n in sys.modules if n == "src" or n.startswith("src.")]:
         mod = sys.modules[name]
         f = getattr(mod, "__file__", "") or ""
@@ -290,3 +291,57 @@ def settings_stay_in_effect(ctx):
 
 # known finding C20-improper-logging-shadowed-by-print-statements: (package, documented section) pairs that are shadowed
 SHADOWED = {("print_statements", "improper-logging")}
+
+
+# =================================================================== bounded differential over command HISTORIES (a net under
+# the contracts): sequences of `thailint --config FILE config set K V` / `config get K` run in-process (click's CliRunner)
+# on a YAML and on a JSON file. Oracle from the property text: a rejected value (exit != 0) leaves the file byte-for-byte
+# unchanged; an accepted value is what `config get K` prints afterwards and what a fresh load of the file contains.
+@custom("c20-config-history-differential", props=["C20"])
+def config_history_differential(ctx):
+    import random
+    import tempfile
+    repo, seed, tier = ctx["repo"], int(ctx.get("seed", 0) or 0), ctx.get("tier", "quick")
+    t0 = time.time()
+    rng = random.Random(seed * 104729 + 20)
+    bad, steps = [], 0
+    KEYS = ["log_level", "output_format", "max_retries", "timeout", "greeting", "app_name", "note", "flag"]
+    VALUES = ["DEBUG", "INFO", "LOUD", "json", "xml", "0", "5", "-1", "3.5", "0.0", "true", "false", "", "hello world", "007",
+              "text", "None", "1e2"]
+    try:
+        cfg, _ = _repo_modules(repo)
+        main = importlib.import_module("src.cli.main")
+        importlib.import_module("src.cli.config")
+        parser = importlib.import_module("src.core.config_parser")
+        from click.testing import CliRunner
+        from pathlib import Path
+        runner = CliRunner()
+        for suffix in (".yaml", ".json"):
+            with tempfile.TemporaryDirectory() as d:
+                f = Path(d) / ("config" + suffix)
+                f.write_text("app_name: demo\nlog_level: INFO\n" if suffix == ".yaml" else '{"app_name": "demo", "log_level": "INFO"}',
+                             encoding="utf-8")
+                for _ in range(6 if tier == "quick" else 25):
+                    k, v = rng.choice(KEYS), rng.choice(VALUES)
+                    before = f.read_bytes()
+                    steps += 1
+                    r = runner.invoke(main.cli, ["--config", str(f), "config", "set", k, "--", v] if v.startswith("-")
+                                      else ["--config", str(f), "config", "set", k, v])
+                    if r.exit_code != 0:
+                        if f.read_bytes() != before:
+                            bad.append(f"{suffix}: `config set {k} {v!r}` was rejected (exit {r.exit_code}) but the file changed")
+                        continue
+                    want = cfg._convert_value_type(v)
+                    g = runner.invoke(main.cli, ["--config", str(f), "config", "get", k])
+                    shown = g.output.rstrip("\n")
+                    if g.exit_code != 0 or shown != str(want):
+                        bad.append(f"{suffix}: `config set {k} {v!r}` accepted, but `config get {k}` prints {shown!r} (exit {g.exit_code}) instead of {str(want)!r}")
+                    stored = parser.parse_config_file(f).get(k, "<missing>")
+                    if stored != want or type(stored) is not type(want):
+                        bad.append(f"{suffix}: `config set {k} {v!r}` accepted, but the file holds {stored!r} instead of {want!r}")
+    except BaseException as e:  # noqa
+        bad.append(f"harness error {type(e).__name__}: {e}")
+    return [{"name": "custom:c20-config-history-differential/set-get-histories", "kind": "bounded",
+             "verdict": "refuted" if bad else "passed", "tool": "native differential (CliRunner)", "budget": f"{steps} commands, seed {seed}",
+             "cases": steps, "note": "; ".join(bad)[:800], "solver": "native", "ms": round((time.time() - t0) * 1000, 1),
+             "witness_confirmed": bool(bad), "witness": "; ".join(bad)[:800] or None}]
